@@ -460,3 +460,57 @@ VARIANTS += [
  dict(name='rest-slice-before-first-element-on-another-branch', file=V, expect='flagged(slice/ngo/verifier.verifyX509TrustedIdentities)', find=LEAF,
       replace='\tif len(trustedX509Identities) > 3 {\n\t\t_ = certs[0].Subject\n\t}\n\t_ = certs[1:]\n' + LEAF),
 ]
+
+# ---- parameters the function itself tests against nil (nilable/tested-parameter) ----------------------------------------
+# a function that compares a pointer / interface parameter with nil expects nil; every dereference the parameter reaches lies
+# behind the non-nil edge of a test of it. SignOCI hands the *SignerInfo a caller-supplied Signer returned to generateAnnotations.
+E = 'internal/envelope/envelope.go'
+GA_OLD = '\tif signerInfo == nil {\n\t\treturn nil, errors.New("failed to generate annotations: signerInfo cannot be nil")\n\t}\n'
+GA_RET = '\t\treturn nil, errors.New("failed to generate annotations: signerInfo cannot be nil")\n\t}\n'
+ST_OLD = '\tif signerInfo == nil {\n\t\treturn time.Time{}, errors.New("failed to generate annotations: signerInfo cannot be nil")\n\t}\n\tsigningTime := signerInfo.SignedAttributes.SigningTime\n'
+ST_RET = '\t\treturn time.Time{}, errors.New("failed to generate annotations: signerInfo cannot be nil")\n\t}\n'
+ST_USE = '\tsigningTime := signerInfo.SignedAttributes.SigningTime\n'
+EP_OLD = '\tif installedPlugin == nil {\n\t\treturn nil, errors.New("installedPlugin cannot be nil")\n\t}\n'
+EP_RET = '\t\treturn nil, errors.New("installedPlugin cannot be nil")\n\t}\n'
+EP_CALLER = '\tif installedPlugin != nil {\n\t\tvar capabilitiesToVerify []pluginframework.Capability\n'
+REPO_OLD = '\tif repo == nil {\n\t\treturn ocispec.Descriptor{}, ocispec.Descriptor{}, errors.New("repo cannot be nil")\n\t}\n'
+REPO_RET = '\t\treturn ocispec.Descriptor{}, ocispec.Descriptor{}, errors.New("repo cannot be nil")\n\t}\n'
+TP_GA = 'flagged(nilable/tested-parameter/ngo.generateAnnotations)'
+TP_ST = 'flagged(nilable/tested-parameter/ngo/internal/envelope.SigningTime)'
+TP_EP = 'flagged(nilable/tested-parameter/ngo/verifier.executePlugin)'
+TP_SO = 'flagged(nilable/tested-parameter/ngo.SignOCI)'
+VARIANTS += [
+ # the guard weakened by a conjunct: the body is no longer reached for a nil parameter, the dereferences behind it are
+ dict(name='annotator-signer-info-guard-false-conjunct', file=N, expect=TP_GA, find=GA_OLD, replace='\tif false && (signerInfo == nil) {\n' + GA_RET),
+ dict(name='annotator-signer-info-guard-extra-conjunct', file=N, expect=TP_GA, find=GA_OLD, replace='\tif len(annotations) > 0 && signerInfo == nil {\n' + GA_RET),
+ dict(name='annotator-signer-info-tested-on-one-path-only', file=N, expect=TP_GA, find=GA_OLD,
+      replace='\tif signerInfo != nil && len(signerInfo.CertificateChain) == 0 {\n\t\treturn nil, errors.New("failed to generate annotations: no certificate chain")\n\t}\n'),
+ dict(name='signing-time-guard-false-conjunct', file=E, expect=TP_ST, find=ST_OLD, replace='\tif false && (signerInfo == nil) {\n' + ST_RET + ST_USE),
+ dict(name='signing-time-read-before-the-test', file=E, expect=TP_ST, find=ST_OLD, replace=ST_USE + '\tif signerInfo == nil {\n' + ST_RET),
+ dict(name='sign-repo-guard-false-conjunct', file=N, expect=TP_SO, find=REPO_OLD, replace='\tif false && (repo == nil) {\n' + REPO_RET),
+ dict(name='sign-repo-guard-extra-conjunct', file=N, expect=TP_SO, find=REPO_OLD, replace='\tif signOpts.ArtifactReference == "" && repo == nil {\n' + REPO_RET),
+ # executePlugin is unexported and its only call site lies behind `installedPlugin != nil`: its own test is redundant as long as
+ # the caller's holds; weakened together with the caller's, the nil plugin reaches the method call
+ dict(name='benign-plugin-guard-weakened-caller-still-tests', file=V, expect='silent', find=EP_OLD, replace='\tif false && (installedPlugin == nil) {\n' + EP_RET),
+ dict(name='plugin-guard-and-caller-test-weakened', expect=TP_EP,
+      edits=[(V, EP_OLD, '\tif len(capabilitiesToVerify) > 1 && installedPlugin == nil {\n' + EP_RET),
+             (V, EP_CALLER, '\tif installedPlugin != nil || len(pluginCapabilities) > 0 {\n\t\tvar capabilitiesToVerify []pluginframework.Capability\n')]),
+ dict(name='plugin-guard-false-conjunct-caller-test-weakened', expect=TP_EP,
+      edits=[(V, EP_OLD, '\tif false && (installedPlugin == nil) {\n' + EP_RET),
+             (V, EP_CALLER, '\tif installedPlugin != nil || len(pluginCapabilities) > 0 {\n\t\tvar capabilitiesToVerify []pluginframework.Capability\n')]),
+ # the same guards spelled differently
+ dict(name='benign-annotator-guard-operands-swapped', file=N, expect='silent', find=GA_OLD, replace='\tif nil == signerInfo {\n' + GA_RET),
+ dict(name='benign-annotator-guard-as-switch', file=N, expect='silent', find=GA_OLD, replace='\tswitch {\n\tcase signerInfo == nil:\n\t' + GA_RET.replace('\n\t}\n', '\n\t}\n')),
+ dict(name='benign-annotator-guard-nested-if', file=N, expect='silent', find=GA_OLD,
+      replace='\tif annotations == nil {\n\t\tif signerInfo == nil {\n\t' + GA_RET.replace('\n\t}\n', '\n\t\t}\n\t}\n') + GA_OLD),
+ dict(name='benign-annotator-default-signer-info', file=N, expect='silent', find=GA_OLD, replace='\tif signerInfo == nil {\n\t\tsignerInfo = &signature.SignerInfo{}\n\t}\n'),
+ dict(name='benign-annotator-use-under-the-non-nil-edge', file=N, expect='silent', find=GA_OLD + '\tvar thumbprints []string\n\tfor _, cert := range signerInfo.CertificateChain {',
+      replace='\tvar thumbprints []string\n\tvar certs []*x509.Certificate\n\tif signerInfo != nil {\n\t\tcerts = signerInfo.CertificateChain\n\t}\n\tfor _, cert := range certs {'),
+ dict(name='benign-signing-time-guard-in-helper', file=E, expect='silent', find=ST_OLD,
+      replace='\tif err := requireSignerInfo(signerInfo); err != nil {\n\t\treturn time.Time{}, err\n\t}\n' + ST_USE,
+      edits=[(E, '// SigningTime returns the signing time', 'func requireSignerInfo(s *signature.SignerInfo) error {\n\tif s == nil {\n\t\treturn errors.New("failed to generate annotations: signerInfo cannot be nil")\n\t}\n\treturn nil\n}\n\n// SigningTime returns the signing time')]),
+ dict(name='benign-signing-time-bool-local', file=E, expect='silent', find=ST_OLD,
+      replace='\tmissing := signerInfo == nil\n\tif missing {\n' + ST_RET + ST_USE),
+ dict(name='signing-time-guard-extra-conjunct', file=E, expect=TP_ST, find=ST_OLD,
+      replace='\tif signerInfo == nil && time.Now().IsZero() {\n' + ST_RET + ST_USE),
+]
